@@ -258,6 +258,10 @@ class FSA:
             # no-op if vertices are already in FSA
             self.add_vertices([tail, head])
 
+            if elist and len(label) == 0:
+                # nothing to add (and don't record head as a neighbor)
+                continue
+
             if head not in self._out_dict[tail]:
                 self._out_dict[tail][head] = []
                 self._in_dict[head][tail] = []
@@ -269,8 +273,12 @@ class FSA:
                 if ignore_redundant:
                     # label is a list here, so the membership test
                     # above never fires; filter label by label instead
-                    label = [l for l in label
-                             if l not in self._out_dict[tail][head]]
+                    new_labels = []
+                    for l in label:
+                        if (l not in self._out_dict[tail][head] and
+                            l not in new_labels):
+                            new_labels.append(l)
+                    label = new_labels
                 self._out_dict[tail][head] += label
                 self._in_dict[head][tail] += label
                 for l in label:
